@@ -31,6 +31,17 @@ CHECKS = {
             "prefixes; plus static table/successor agreement",
             "Reachable-valuation exploration is exact for 'all paths' because decisions at original blocks are unconstrained.",
             "freshness enforced for exiting latches; bounded scope"),
+    "C07": ("stateless depth-first exploration of ALL oracle answer sequences (tests true/false/raise, iterables of length 0-2, raising calls) "
+            "up to a horizon, original function vs regenerated function, over exhaustively enumerated control skeletons S(c), expression "
+            "shapes X(d) x carriers and targeted programs",
+            "Arguments are replaced by an environment oracle so that every branch-decision path up to the horizon is executed on both "
+            "functions; the program space is enumerated, not sampled.",
+            "control depends on data only via oracle calls; truthiness is not an external call; horizon bounds loop unrolling"),
+    "C08": ("stateless exploration of all oracle answer sequences: the front end's CFG executed by a block interpreter vs the function, "
+            "pruned and unpruned, plus a static census by AST node identity",
+            "Order of external calls (incl. operator calls on oracle values) is compared on every path up to the horizon, which exposes "
+            "eager or re-ordered operand evaluation that return values hide.",
+            "block interpreter is the checker's reading of the statement; horizon bounds loop unrolling"),
     "C16": ("exhaustive enumeration of closed CFGs x {input, J, JL, JLB}; iterator and concealed view of every (sub)graph compared "
             "with the hierarchy",
             "Every sub-region at every depth of every enumerated hierarchy is iterated and compared.", "bounded scope"),
